@@ -2969,10 +2969,17 @@ func (s *swamp) deleteHandler(key string, shadowDelete bool) (deletedTreasure tr
 
 	// remove the treasure from the treasuresWaitingForWriter slice if the treasure does not have a loader pointer
 	// because it is meaning the treasure is not saved yet to the chroniclerInterface, but it is deleted from the swamp
-	if treasureObj.GetFileName() == nil {
+	if treasureObj.GetFileName() == nil && atomic.LoadInt32(&s.isFilesystemWritingActive) == 0 {
+		// Mark it as deleted all the same: a flush that starts right now may have
+		// picked the treasure up already (it is waiting for the guard we hold) and
+		// must write a delete entry, not the record.
+		treasureObj.BodySetForDeletion(guardID, "system", shadowDelete)
 		// delete the treasure from the treasuresWaitingForWriter index
 		s.treasuresWaitingForWriter.Delete(key)
 	} else {
+		// Either the treasure is in the file, or a flush is in flight that may have
+		// written it (the file pointer is only set when the flush ends): the
+		// deletion has to reach the file too.
 		// set the treasure for deletion
 		// todo: itt meg kell oldani, hogy a törlésnél legyen kérhető a shadow delete is.
 		treasureObj.BodySetForDeletion(guardID, "system", shadowDelete)
